@@ -37,8 +37,31 @@ YamlInvalid == DeclInvalid \cup {GenericName(p) : p \in GenericImplied} \cup {"l
                 "default_arg_suffix-not-list", "declarations-not-list", "decl-not-string", "options-not-mapping",
                 "format-not-mapping", "attrs-not-mapping", "class-decl-with-body", "unknown-top-level-type"}
 
+\* The type of node every key of the input file takes (docs/input.rst, docs/reference.rst) and the levels at which
+\* Shroud reads it.  A value of another type is invalid input; a blank value (YAML null) and a value of the right
+\* type are judged on "never an internal failure" only, since their legality depends on their content.
+KeyType == [format |-> "map", options |-> "map", attrs |-> "map", fattrs |-> "map", splicer |-> "map", fstatements |-> "map",
+            declarations |-> "list", cxx_template |-> "list", fortran_generic |-> "list", default_arg_suffix |-> "list",
+            copyright |-> "list", typemap |-> "list",
+            library |-> "str", language |-> "str", cxx_header |-> "str", namespace |-> "str"]
+ReadAt == [format |-> {"library", "class", "namespace", "function"}, options |-> {"library", "class", "namespace", "function"},
+           attrs |-> {"function"}, fattrs |-> {"function"}, splicer |-> {"function"}, fstatements |-> {"function"},
+           declarations |-> {"library", "class", "namespace"}, cxx_template |-> {"function"}, fortran_generic |-> {"function"},
+           default_arg_suffix |-> {"function"}, copyright |-> {"library"}, typemap |-> {"library"},
+           library |-> {"library"}, language |-> {"library"}, cxx_header |-> {"library", "class", "namespace"},
+           namespace |-> {"library"}]
+KindOf(vk) == CASE vk \in {"map", "emptymap"} -> "map" [] vk \in {"list", "emptylist"} -> "list"
+                [] vk \in {"str", "emptystr"} -> "str" [] OTHER -> vk
+YTypeJudged(k, lv) == k \in DOMAIN KeyType /\ lv \in ReadAt[k]
+YTypeWrong(k, vk) == vk # "null" /\ KindOf(vk) # KeyType[k]
+
 Verdict0 ==
-  CASE T.kind = "mut" ->
+  CASE T.kind = "ytype" ->
+         IF T.outcome \in {"internal", "hang"} THEN <<"REJECT", "internal Python exception / hang", T.key, T.level, T.vk>>
+         ELSE IF YTypeJudged(T.key, T.level) /\ YTypeWrong(T.key, T.vk) /\ T.outcome = "accept"
+              THEN <<"REJECT", "value of the wrong type silently accepted", T.key, T.level, T.vk>>
+         ELSE <<"ACCEPT", T.outcome>>
+    [] T.kind = "mut" ->
          IF ~Applicable(toks, mut) THEN <<"EXCLUDED", "edit position outside the sentence">>
          ELSE IF T.toks # mtoks THEN <<"BADTREE", "harness text is not the mutated sentence">>
          ELSE LET j == Judge(mtoks, T.outcome, T.msg, T.sentence \/ mut.op = "none") IN
